@@ -7,7 +7,7 @@
     archetype [s] (through its query iterator or its entry views), [res_access]
     how it can reach a resource. *)
 From Coq Require Import Permutation.
-From Brood Require Import Base Kinds Tables Sched SchedSpec SchedFacts.
+From Brood Require Import Base Kinds Tables Sched SchedSpec SchedFacts TouchFacts.
 
 Theorem C08_no_shared_write : forall n nres tasks archs stages T, NoDup archs ->
   stages_of n nres tasks = Some stages ->
@@ -71,3 +71,41 @@ Example C08_example :
   | None => False
   end.
 Proof. vm_compute. tauto. Qed.
+
+
+(** The same, in terms of what the tasks DECLARE ([may_access], Model/SchedSpec.v: from the views, the filter and
+    the entry views alone — an entry view reaches every archetype that has the component): two tasks that may
+    overlap in time share no component of any archetype present that one of them may write.  This is where
+    the EntryFilter / view-filter / claim tables regenerated from the source are checked to cover the views. *)
+Theorem C08_no_shared_write_declared : forall n nres tasks archs stages T, NoDup archs ->
+  stages_of n nres tasks = Some stages ->
+  run_schedule n nres tasks archs = Some (stages, T) ->
+  forall x y, par_in T x y ->
+  exists tx ty, task_at tasks x = Some tx /\ task_at tasks y = Some ty /\
+    forall cx cy, task_claims n tx = Some cx -> task_claims n ty = Some cy ->
+    forall s c, In s archs -> c < n -> claim_conflict (may_access tx s c) (may_access ty s c) = false.
+Proof.
+  intros n nres tasks archs stages T ND HS HR x y Hp.
+  destruct (C08_no_shared_write n nres tasks archs stages T ND HS HR x y Hp) as (tx & ty & Hx & Hy & H1 & H2).
+  exists tx, ty. split; [exact Hx|]. split; [exact Hy|]. intros cx cy Cx Cy s c Hs Hc.
+  exact (no_shared_write_declared n nres archs tx ty cx cy Cx Cy (conj H1 H2) s c Hs Hc).
+Qed.
+Check (C08_no_shared_write_declared : forall n nres tasks archs stages T, NoDup archs ->
+  stages_of n nres tasks = Some stages ->
+  run_schedule n nres tasks archs = Some (stages, T) ->
+  forall x y, par_in T x y ->
+  exists tx ty, task_at tasks x = Some tx /\ task_at tasks y = Some ty /\
+    forall cx cy, task_claims n tx = Some cx -> task_claims n ty = Some cy ->
+    forall s c, In s archs -> c < n -> claim_conflict (may_access tx s c) (may_access ty s c) = false).
+Print Assumptions C08_no_shared_write_declared.
+
+Theorem C08_claims_cover_declared_access : forall n t s c cl, task_claims n t = Some cl -> c < n ->
+  claim_le (may_access t s c) (access n t s c) = true.
+Proof. exact may_access_covered. Qed.
+Print Assumptions C08_claims_cover_declared_access.
+
+(** non-vacuity: an entry view alone makes an archetype outside the query's reach accessible *)
+Example C08_entry_view_reaches :
+  may_access (mkTask [VComp KRef 0] FNone [VComp KRef 1] []) [false; true] 1 = CImm /\
+  may_access (mkTask [VComp KRef 0] FNone [VComp KOptMut 1] []) [false; true] 1 = CMut.
+Proof. vm_compute. split; reflexivity. Qed.
